@@ -30,6 +30,10 @@ type FuncContract struct {
 	ModifiesSrc []string
 	LoopInvs    map[int][]Clause
 	AtCall      map[string][]Clause // assertions checked in the caller just before each call of the named callee
+	Stable      []Expr              // fields that opaque callees are assumed never to write (set once at construction)
+	StableSrc   []string
+	OpaqueCalls bool                // uncontracted callees are treated as opaque: arbitrary effect on memory, may panic
+	PanicOnlyWhen []Clause          // a run-time panic is acceptable only in states satisfying one of these
 	PanicsNever bool
 	MayPanic    []Clause
 	Inline      bool
@@ -94,7 +98,7 @@ func newContracts() *Contracts {
 	return &Contracts{Funcs: map[string]*FuncContract{}, SpecFuncs: map[string]*SpecFunc{}, Lemmas: map[string]*Lemma{}, Ghosts: map[string]*GhostVar{}, FuncFields: map[string]string{}, OpaqueTys: map[string]bool{}, NonConsensusMapLoops: map[string]string{}}
 }
 
-var directiveKW = []string{"func", "invoke", "spec", "pred", "lemma", "axiom", "ghost", "requires", "ensures", "modifies", "loop", "panics_never", "may_panic", "inline", "trusted", "uses", "noreturn", "pure", "fresh_result", "funcfield", "sink", "opaque", "maploop", "at"}
+var directiveKW = []string{"func", "invoke", "spec", "pred", "lemma", "axiom", "ghost", "requires", "ensures", "modifies", "loop", "panics_never", "may_panic", "inline", "trusted", "uses", "noreturn", "pure", "fresh_result", "funcfield", "sink", "opaque", "maploop", "at", "opaque_calls", "panic_only_when", "stable"}
 
 type directive struct {
 	kw    string
@@ -402,6 +406,24 @@ func (c *Contracts) loadFile(path, pkgPath string, isLib bool) error {
 					return fail(err)
 				}
 				curF.AtCall[f[0]] = append(curF.AtCall[f[0]], Clause{label, e, body, d.where})
+			case "stable":
+				for _, part := range splitTopLevel(d.rest, ',') {
+					e, err := parseExpr(part)
+					if err != nil {
+						return fail(err)
+					}
+					curF.Stable = append(curF.Stable, e)
+					curF.StableSrc = append(curF.StableSrc, strings.TrimSpace(part))
+				}
+			case "opaque_calls":
+				curF.OpaqueCalls = true
+			case "panic_only_when":
+				label, body := splitLabel(d.rest)
+				e, err := parseExpr(body)
+				if err != nil {
+					return fail(err)
+				}
+				curF.PanicOnlyWhen = append(curF.PanicOnlyWhen, Clause{label, e, body, d.where})
 			case "panics_never":
 				curF.PanicsNever = true
 			case "may_panic":
